@@ -83,7 +83,7 @@ def run(ctx):
     _, insts = bp.io_run(ctx, "c38_a", NS=3, NI=2, G=2, vals=(0, 1, 2), ign=("spec",), perms="all", mode="hash",
                          seeds=range(1, 30 if q else 200), canon=False, min_kids=1, emit=True)
     _, more = bp.io_run(ctx, "c38_b", NS=4, NI=3, G=3, vals=(0, 1, 2), ign=("spec",), perms="all", mode="hash",
-                        seeds=range(1, 3 if q else 12), canon=True, min_kids=1, emit=True)
+                        seeds=range(1, 3 if q else 40), canon=True, min_kids=1, emit=True)
     insts += more
     # as implemented: named deviation, TLC must refute it
     r, _ = bp.io_run(ctx, "c38_impl", NS=3, NI=2, G=2, vals=(0, 1, 2), ign=("impl",), perms="all", mode="hash",
@@ -122,7 +122,7 @@ def run(ctx):
         if d["perm"][d["oldest"]] != d["N"] - 1 and d["skipped"]:
             ctx.nontriv(("dag", str(d["edges"]), str(d["perm"]), str(d["time"])))
     bp.tick(ctx, "replay_orders")
-    inputs = bp.corpus(ctx, 4 if q else 16, 1 if q else 4)
+    inputs = bp.corpus(ctx, 4 if q else 30, 1 if q else 6)
     for k, inp in enumerate(inputs):
         for s in range(1 if q else 3):
             pair(ctx, inp.name, inp.ts, inp.mu, inp.Ne, bp.SPACES[(k + s) % 2], ctx.seed + 101 * s + k)
